@@ -281,6 +281,9 @@ class FakeSnowflakeCursor:
             result_sql = SQL_SUCCESS
 
         elif set_schema := transformed.args.get("set_schema"):
+            if set_schema_database := transformed.args.get("set_schema_database"):
+                self._conn.database = set_schema_database
+                self._conn.database_set = True
             self._conn.schema = set_schema
             self._conn.schema_set = True
             result_sql = SQL_SUCCESS
